@@ -344,6 +344,15 @@ example : finderLeadingStrings id [[97, 98], [120, 121]] [97, 120] false demoTex
     finderLeadingStrings id [[97, 98], [120, 121]] [97, 120] true demoText 2 2 = (true, 3) ∧
     finderLeadingStrings id [[97, 98], [120, 121]] [97, 120] false demoText 2 4 = (false, 5) := by decide
 
+/-- **`LeadingPrefixFirstRunes` is complete**: computed as `leadingPrefixFirstRunes` does (the distinct
+    first runes of the prefixes), it contains the first rune of every prefix — the `first` assumption of
+    `StringsFacts` holds by construction. -/
+theorem firstRunes_complete (prefixes : List (List Nat)) :
+    ∀ pre, pre ∈ prefixes → ∀ c rest, pre = c :: rest → c ∈ leadingPrefixFirstRunes prefixes :=
+  leadingPrefixFirstRunes_complete prefixes
+
+example : leadingPrefixFirstRunes [[97, 98], [120, 121], [97, 99]] = [97, 120] := by decide
+
 /-- **`FixedDistanceChar_LeftToRight`** (`findFixedDistanceCharLeftToRight`): if the character `c`
     stands `d` positions after the start of every match (`text[p+d] = c`) and `MinRequiredLength` is
     sound, then searching `c` from `pos+d` on and stepping back `d` loses no match. -/
